@@ -273,6 +273,55 @@ pub fn arb_stake_plan(p: &Profile) -> impl proptest::strategy::Strategy<Value = 
     })
 }
 
+/// A stake's whole life, by construction: funds, one to three stake transactions, then an epoch boundary crossed
+/// again and again with spends aimed at the staked coins in every epoch (before the start, during, in the end epoch,
+/// after it), other stakes registered on the way.
+pub fn arb_lifecycle_plan(p: &Profile) -> impl proptest::strategy::Strategy<Value = crate::plan::Plan> {
+    use crate::plan::{arb_cfg, arb_tx, kind_byte, Step};
+    use proptest::prelude::*;
+    let stake = kind_byte(p, 5, 0);
+    let p2 = p.clone();
+    (
+        arb_cfg(),
+        proptest::collection::vec(arb_tx(2, 3), 1..4),
+        proptest::collection::vec((proptest::collection::vec((arb_tx(3, 3), 0u8..8), 1..4), any::<u32>(), any::<u8>()), 3..8),
+    )
+        .prop_map(move |(cfg, stakes, epochs)| {
+            let mut steps = vec![];
+            let mut first = vec![];
+            for mut t in stakes {
+                t.kind = stake;
+                t.mutation = 255; // never mutated: the point is a registered stake
+                first.push(t);
+            }
+            steps.push(Step::Batch(first, 0));
+            steps.push(Step::Seal(None));
+            for (txs, order, walk) in epochs {
+                if walk % 8 != 0 {
+                    // to the last block of the current epoch, then across it
+                    steps.push(Step::Teleport(0));
+                    steps.push(Step::Seal(None));
+                }
+                let mut b = vec![];
+                for (mut t, what) in txs {
+                    match what {
+                        0 => t.kind = stake,
+                        _ => {
+                            t.kind = kind_byte(&p2, 0, t.kind);
+                            if what < 6 {
+                                t.amount -= t.amount % 3; // aim at a staked coin
+                            }
+                        }
+                    }
+                    b.push(t);
+                }
+                steps.push(Step::Batch(b, order));
+                steps.push(Step::Seal(None));
+            }
+            crate::plan::Plan { cfg, steps }
+        })
+}
+
 pub fn run(ctx: &Ctx) -> (Outcome, String, Option<bool>) {
     let mut p = profile();
     if ctx.thorough() {
@@ -294,10 +343,39 @@ pub fn run(ctx: &Ctx) -> (Outcome, String, Option<bool>) {
             r
         },
     );
-    let rule = "Generated histories on Custom02/Custom08 from genesis and on Testnet/Mainnet started above the legacy heights (jump to the TIP-906 barrier, honest crossing, jump to 979 000), with 30% stake transactions whose documents cover start <,=,> current epoch, end <,=,> start, end = u64::MAX, amount equal / off by one, undecodable data, plus genesis stakes; ordinary transactions then pick inputs at random from a wallet that keeps the staked coins, so spends of a stake's first output are attempted in the registering batch, the same block, later blocks and - through 2-5 inserted jumps to the last block of an epoch followed by honest blocks - in later epochs, including the end epoch and the one after. Oracle: registered (post-state stake set) => first output is SYM equal to the declared amount, start > epoch, end > start; an accepted batch never spends the first output of a registered stake while epoch <= its end field (also not in the registering batch); a batch rejected as 'locked' although all stake outputs it touches are past their end epoch is a violation; after every seal, votes(e, key) and total_votes(e) for the five epochs from the current one equal the sums over registered stakes with start <= e < end, and stakes_hash equals the root rebuilt from exactly the registered stakes with end >= current epoch. Non-trivial = a history in which a registered stake's first output is targeted in >=2 different epochs; distinct by (document epochs, attempt list).".to_string();
+    let mut out = out;
+    let p2 = profile2();
+    let prof2 = p2.clone();
+    out.absorb(crate::runner::run_sharded(
+        ctx,
+        "stake-lifecycles",
+        ctx.scale(500, 5000),
+        move || {
+            use proptest::strategy::Strategy;
+            arb_lifecycle_plan(&prof2).prop_map(|p| super::hist::Phase2 { phase2: p })
+        },
+        |plan, st, shard| {
+            st.eval();
+            st.class("lifecycle-history");
+            let r = crate::plan::run_plan(&plan.phase2, &p2, &mut C13::default(), st, shard);
+            if st.want_sample() {
+                st.sample(|| super::hist::plan_summary(&plan.phase2));
+            }
+            r
+        },
+    ));
+    let rule = "Second phase, stake lifecycles by construction: funds, 1-3 stake transactions, then 3-7 rounds of (jump to the last block of the current epoch, cross it honestly, a batch of ordinary transactions aimed at the staked coins and further stakes, seal), so that every registered stake is attacked before its start, while active, in its end epoch and after it. First phase: generated histories on Custom02/Custom08 from genesis and on Testnet/Mainnet started above the legacy heights (jump to the TIP-906 barrier, honest crossing, jump to 979 000), with 30% stake transactions whose documents cover start <,=,> current epoch, end <,=,> start, end = u64::MAX, amount equal / off by one, undecodable data, plus genesis stakes; ordinary transactions then pick inputs at random from a wallet that keeps the staked coins, so spends of a stake's first output are attempted in the registering batch, the same block, later blocks and - through 2-5 inserted jumps to the last block of an epoch followed by honest blocks - in later epochs, including the end epoch and the one after. Oracle: registered (post-state stake set) => first output is SYM equal to the declared amount, start > epoch, end > start; an accepted batch never spends the first output of a registered stake while epoch <= its end field (also not in the registering batch); a batch rejected as 'locked' although all stake outputs it touches are past their end epoch is a violation; after every seal, votes(e, key) and total_votes(e) for the five epochs from the current one equal the sums over registered stakes with start <= e < end, and stakes_hash equals the root rebuilt from exactly the registered stakes with end >= current epoch. Non-trivial = a history in which a registered stake's first output is targeted in >=2 different epochs; distinct by (document epochs, attempt list).".to_string();
     (out, rule, None)
 }
 
+pub fn profile2() -> Profile {
+    let mut p2 = profile();
+    p2.seed_funds = true;
+    p2.net_w = [50, 20, 20, 10, 0, 0, 0, 0, 0];
+    p2.p_mut = 3;
+    p2
+}
+
 pub fn replay(case: &serde_json::Value) -> Check {
-    super::hist::replay_history(case, &profile(), C13::default())
+    super::hist::replay_two_phase(case, &profile(), &profile2(), C13::default())
 }
